@@ -34,7 +34,10 @@ func runC13(c *Ctx, tier string) {
 	// its loop walks the (duplicate-free) registered names once and registers each
 	// selected lint once, so the "already registered" error cannot arise from a
 	// valid selection (the rules of C08, evaluated here as well)
-	filterChecks(c, r, false)
+	filterChecks(c, r, true)
+	c08Empty(c, r) // when Filter may hand back the registry it was given instead of a copy
+	// listed = registered: Names()/Sources()/ByName/BySource answer from the tables register filled (registry coherence, C12)
+	c12Registry(c, r)
 	r.Finish()
 }
 
